@@ -61,12 +61,14 @@ class C04(Check):
             if j % 11 == 5 and nk < 300:
                 # items that are EQUAL (same hash) while the key mapper tells them apart: (g, 1) / (g, 1.0) / (g, True) keyed by the
                 # type of the second field.  Only under parents that do not compute on the items.
-                name = ['top', 'roll', 'roll_eq'][(j // 11) % 3]
+                name = rng.choice(['top', 'roll', 'roll_eq'])
                 yield {'key': 'ktype', 'parent': name, 'parent_node': windows.PARENTS[name](rng), 'items': items, 'inner': 'to_list',
                        'itemform': 'equal-items-different-keys', 'nk': nk}
                 continue
-            yield {'key': KEYS[j % len(KEYS)] % nk, 'parent': name, 'parent_node': windows.PARENTS[name](rng),
-                   'items': items, 'inner': 'to_list' if j % 3 else 'per-item'}
+            # (key kind and inner pipeline are drawn: taken from j they beat with the parent turn j % 8 - hash-colliding keys were
+            # only ever seen with a per-item inner pipeline and never at the top level)
+            yield {'key': rng.choice(KEYS) % nk, 'parent': name, 'parent_node': windows.PARENTS[name](rng),
+                   'items': items, 'inner': 'to_list' if rng.random() < 0.67 else 'per-item'}
 
     def evaluate(self, case):
         out = Outcome()
